@@ -12,7 +12,7 @@ RULE = (
     "X-ENUM, complete over: every member of all 27 enums as a plain value operand ('db.Setting = E.M'); every LogicType member in its "
     "typed position through a generic device read, write and batch read; every LogicSlotType member through a slot of a structure "
     "that exposes it (single and batch); the four batch methods in both spellings; every string over the alphabet {a, Z, 0, space, "
-    "_, ., -, e-acute} of length 0..3 (quick) / 0..4 (thorough) as HASH argument, named-batch name and Devices() prefab name; every "
+    "_, ., -, e-acute, ), (, double quote} of length 0..3 (quick) / 0..4 (thorough) as HASH argument, named-batch name, Devices() prefab name and as a hash held in a variable that names a batch; every "
     "ASCII string of length 1..6 over 3 characters as STR argument; integer literals around the format_int boundaries written in "
     "decimal and hex; plus every program of DEV, FUNC, LIST, LIB and the repository's own programs x {inline, remove_labels} vectors.  "
     "Each source is compiled with compact off and on (other options equal); both outputs are tokenised by the harness and every "
@@ -22,7 +22,7 @@ RULE = (
 )
 ASSUME = ["a bare name in a plain value position that names a LogicType member is read by the chip as that LogicType number (logic types are looked up first); bare names that are ambiguous among the other enums only are reported", "enum name -> number tables are the repository's own (C16 checks their internal consistency)", "position kinds come from the harness instruction table (vp/ic10.py ISA)"]
 
-SIGMA = ["a", "Z", "0", " ", "_", ".", "-", "é"]
+SIGMA = ["a", "Z", "0", " ", "_", ".", "-", "é", ")", "(", '"']
 
 
 def token_value(tok, kind, labels):
@@ -188,13 +188,16 @@ def build_cases(tier):
     strs = [""]
     for ln in range(1, L + 1):
         strs += ["".join(t) for t in itertools.product(SIGMA, repeat=ln)]
-    strs = [s for s in strs if s != ""]
+    strs = [s for s in strs if s != "" and '")' not in s]  # a name containing '")' cannot be written inside HASH("...") in IC10 itself
     for j in range(0, len(strs), 40):
         chunk = strs[j : j + 40]
         src = ""
-        for s in chunk:
+        for si, s in enumerate(chunk):
             q = json.dumps(s, ensure_ascii=False)
             src += f"db.Setting = HASH({q})\ndb.On = Batteries[{q}].Charge.Sum\nGrowLights[{q}].On = 1\ndb.Mode = Devices({q}).Charge.Average\nDevices(HASH({q}), {q}).On = 0\n"
+            # the hash kept in a variable and used as a device name (passes through the hash formatter a second time)
+            # (single-assignment variable: the constant is propagated; a reassigned variable: it lives in a register)
+            src += f"hv{si} = HASH({q})\nGrowLights[hv{si}].On = 2\ndb.Lock = Batteries[hv{si}].Charge.Maximum\nhw = HASH({q})\nGrowLights[hw].On = 3\n"
         cases.append({"family": "STRINGS", "programs": [prog(src)], "vectors": base, "key": common.hkey("S", chunk)})
     st = []
     for ln in range(1, 7):
